@@ -12,7 +12,17 @@ mkdir -p tests; cp $SRC/demo/*.rs tests/ 2>/dev/null
 FEATS=""; grep -q "serde" $SRC/demo/README.md 2>/dev/null && FEATS="--features serde"
 echo "== demo WITHOUT the change"; cargo test --offline $FEATS --test demo 2>&1 | grep -E "^test result|error(\[|:)" | head -3
 git apply $SRC/patch.diff || { echo "PATCH DOES NOT APPLY"; exit 1; }
-echo "== pinned suite WITH the change"; cargo test --workspace --no-fail-fast --offline --lib 2>&1 | grep -E "^test result" | head -2
+# two pinned tests (rng::xoshiro256::fill_bytes, rng::chacha::tests::test_fill_bytes) seed from OS entropy and fail ~3% of runs each on the UNCHANGED tree
+# ("too many zeroes"); a failure that consists only of those is re-run
+echo "== pinned suite WITH the change"
+for try in 1 2 3; do
+  OUT=$(cargo test --workspace --no-fail-fast --offline --lib 2>&1)
+  echo "$OUT" | grep -E "^test result" | head -2
+  FAILS=$(echo "$OUT" | grep -E "^test .* FAILED" | grep -v -E "rng::xoshiro256::fill_bytes|rng::chacha::tests::test_fill_bytes")
+  if echo "$OUT" | grep -q "^test result: ok"; then break; fi
+  if [ -n "$FAILS" ]; then echo "$FAILS"; break; fi
+  echo "   (only the entropy-seeded 'too many zeroes' tests failed: flaky on the unchanged tree too; re-running)"
+done
 echo "== demo WITH the change"; cargo test --offline $FEATS --test demo 2>&1 | grep -E "^test result|error(\[|:)" | head -3
 cd /; git -C /repo worktree remove --force $W
 mkdir -p /verif/seeded/$ID; cp $SRC/patch.diff /verif/seeded/$ID/; cp -r $SRC/demo /verif/seeded/$ID/ 2>/dev/null; cp $SRC/meta.json /verif/seeded/$ID/meta.agent.json 2>/dev/null
